@@ -193,7 +193,7 @@ def interleave(rnd: random.Random, p_steps, h_steps, mode: str):
 
 
 def _reads(st):
-    out = [st.get(k) for k in ("src", "l", "r")]
+    out = [st.get(k) for k in ("src", "l", "r", "reader")]
     cs = list(st.get("cols") or []) + ([st["col"]] if "col" in st else [])
     if st.get("on") and st["on"][0] == "expr":
         cs += st["on"][1:]
